@@ -328,8 +328,8 @@ Qed.
 
 (* the pinned order: a history accepted by the model (mgfix = false) passes through a state that is not maglev-consistent *)
 Definition pw_eps := [Ep 167837953 8000 true false 3232235522].
-Definition pw_m := Svc 0 174063617 80 6 0 [] [] false false 0 true.
-Definition pw_plain := Svc 0 174063617 80 6 0 [] [] false false 0 false.
+Definition pw_m := Svc 0 174063617 80 6 0 [] [] false false 0 true false.
+Definition pw_plain := Svc 0 174063617 80 6 0 [] [] false false 0 false false.
 Definition pw_lutf (eps : list ep) (j : N) : bval := (167837953, 8000).
 Definition pw_ops : list mop3 :=
   [ MApply3 [(pw_m, pw_eps)] [(0, [])] [] []
